@@ -407,6 +407,34 @@ Section WithHash.
   Definition zone_failure_admitted (zone_empty best_effort ctx_err : bool) (x : cause) : bool :=
     negb (zone_empty || best_effort || ctx_err || cause_local x).
 
+  (* The resolver handler (DNSHandler.handle) turns a terminal resolution error
+     into a SERVFAIL and marks it request-local exactly when
+     middleware.IsRequestLocalResolutionError says so (or the request context
+     has ended).  The error classes it can see: *)
+  Inductive rerr :=
+  | RNetwork            (* every authority failed / unreachable *)
+  | RCapacityGlobal     (* errResolutionCapacity: every in-flight resolution slot taken — load shed *)
+  | RCapacityZone       (* errZoneCapacity: the zone's in-flight quota taken — load shed *)
+  | RWorkLimit | RAttemptLimit | RProbeLimit | RMaxRecursion | RCanceled | RDeadline.
+  (* IsRequestLocalResolutionError, as the source lists it *)
+  Definition is_request_local_error (e : rerr) : bool :=
+    match e with
+    | RWorkLimit | RAttemptLimit | RProbeLimit | RMaxRecursion | RCanceled | RDeadline => true
+    | RNetwork | RCapacityGlobal | RCapacityZone => false
+    end.
+  (* which of them are the resolver or cache shedding load *)
+  Definition shed_load (e : rerr) : bool :=
+    match e with RCapacityGlobal | RCapacityZone | RProbeLimit => true | _ => false end.
+  (* the facts the cache's write-back sees for the handler's SERVFAIL (live context) *)
+  Definition handler_failure (e : rerr) : req_local := mk_req_local false false false (is_request_local_error e).
+
+  (* Resolver.lookup + resolve: a zone failure is published when the fan-out
+     ends without a usable response; with every server awaited that is: no
+     server of the zone gave one.  Behaviour of one authority address: *)
+  Inductive authority_behaviour := AHealthy | AFailureRcode | ASilent.
+  Definition usable (b : authority_behaviour) : bool := match b with AHealthy => true | _ => false end.
+  Definition zone_failure_published (servers : list authority_behaviour) : bool := negb (existsb usable servers).
+
   (* ------------------------------------------------- Cache.ServeDNS rung *)
   (* The failure-related part of the cache middleware for one client query
      that reached the failure rung (no answer-cache / cut / denial hit):
